@@ -270,6 +270,8 @@ func derive(fn string) string {
 		return optionList("authority/provisioner/nebula.go", "Nebula")
 	case "k8ssa":
 		return optionList("authority/provisioner/k8sSA.go", "K8sSA")
+	case "aws":
+		return optionList("authority/provisioner/aws.go", "AWS")
 	case "acme":
 		return optionList("authority/provisioner/acme.go", "ACME")
 	case "scep":
@@ -291,7 +293,7 @@ func main() {
 		os.Exit(2)
 	}
 	defer o.Close()
-	fns := []string{"signX509", "jwk", "x5c", "oidc", "nebula", "k8ssa", "acme", "scep", "allsign"}
+	fns := []string{"signX509", "jwk", "x5c", "oidc", "nebula", "k8ssa", "aws", "acme", "scep", "allsign"}
 	if *replay != "" {
 		fns = nil
 		data, _ := os.ReadFile(*replay)
